@@ -22,7 +22,7 @@ from mulgrids import mulgrid
 from t2grids import t2grid
 
 RTOL = 1.e-9            # DESIGN.md: tolerance 1e-9 relative
-CASE_TIMEOUT = 240      # seconds per case (alarm)
+CASE_TIMEOUT = 600      # seconds per case (alarm)
 ATMCOL = ['ATM', ' 0', '  0', 'ATM']   # documented name of the single atmosphere "column" per convention
 CONTRACTS = ['block_names_vs_geo', 'block_names_vs_oracle', 'connection_names_vs_geo',
              'connection_names_vs_oracle', 'block_volume', 'block_centre', 'block_atmosphere_flag',
@@ -534,7 +534,7 @@ def main():
     big, small = (2, 4), (1, 3, 5, 6, 7)
     for gi in range(1, 8):                       # shipped geometries unchanged
         cases.append(file_case(rnd, idx, gi, False)); idx += 1
-    nvar_small, nvar_big, nrect = (5, 2, 1500) if tier == "quick" else (100, 40, 40000)
+    nvar_small, nvar_big, nrect = (5, 2, 1500) if tier == "quick" else (60, 20, 25000)
     for gi in big:
         for _ in range(nvar_big):
             cases.append(file_case(rnd, idx, gi, True)); idx += 1
